@@ -238,3 +238,83 @@ Proof. induction a; simpl; intro H; auto. inversion H. auto. Qed.
 
 Lemma string_length_app a b : String.length (a ++ b) = (String.length a + String.length b)%nat.
 Proof. induction a; simpl; auto. Qed.
+
+(* ---- path resolution ------------------------------------------------------------------------------ *)
+(* q is one of the names visited when p is resolved (including a dangling last target) *)
+Fixpoint onchain (f : fs) (n : nat) (p q : path) : bool :=
+  String.eqb p q ||
+  match nlook f p with
+  | Some (DSym t) => match n with O => false | S n' => onchain f n' t q end
+  | _ => false
+  end.
+
+Lemma resolve_mono f n m p i : resolve f n p = SOk i -> (n <= m)%nat -> resolve f m p = SOk i.
+Proof.
+  revert m p. induction n as [|n IH]; intros m p H L; destruct m as [|m]; cbn in *;
+    destruct (nlook f p) as [[j|t]|]; try congruence; try lia.
+  apply IH; auto. lia.
+Qed.
+
+(* changing only the name q does not affect a resolution that does not visit q *)
+Lemma resolve_frame f f' q n p :
+  (forall p', p' <> q -> nlook f' p' = nlook f p') -> onchain f n p q = false -> resolve f' n p = resolve f n p.
+Proof.
+  intro Hn. revert p. induction n as [|n IH]; intros p H; cbn in H |- *;
+    apply orb_false_iff in H as [H1 H2]; apply String.eqb_neq in H1; rewrite (Hn p H1);
+    destruct (nlook f p) as [[j|t]|]; auto.
+Qed.
+
+Lemma resolve_names_eq f f' n p : f_names f' = f_names f -> resolve f' n p = resolve f n p.
+Proof.
+  intro E. revert p. induction n as [|n IH]; intro p; cbn; unfold nlook; rewrite E;
+    destruct (alook String.eqb p (f_names f)) as [[j|t]|]; auto.
+Qed.
+
+Lemma resolve_named f n p i : resolve f n p = SOk i -> exists p', nlook f p' = Some (DLink i).
+Proof.
+  revert p. induction n as [|n IH]; intros p H; cbn in H; destruct (nlook f p) as [[j|t]|] eqn:E; try discriminate.
+  - inversion H; subst. eauto.
+  - inversion H; subst. eauto.
+  - eauto.
+Qed.
+
+(* a successful resolution does not visit a free name, nor a plain link to another inode *)
+Lemma onchain_free f n p q i : resolve f n p = SOk i -> nlook f q = None -> onchain f n p q = false.
+Proof.
+  revert p. induction n as [|n IH]; intros p H Hq; cbn in H |- *;
+    destruct (String.eqb_spec p q) as [->|Hp]; cbn [orb];
+    try (rewrite Hq in H; discriminate); destruct (nlook f p) as [[j|t]|]; auto; discriminate.
+Qed.
+
+Lemma onchain_other f n p q i j :
+  resolve f n p = SOk i -> nlook f q = Some (DLink j) -> j <> i -> onchain f n p q = false.
+Proof.
+  revert p. induction n as [|n IH]; intros p H Hq Hj; cbn in H |- *;
+    destruct (String.eqb_spec p q) as [->|Hp]; cbn [orb];
+    try (rewrite Hq in H; inversion H; congruence); destruct (nlook f p) as [[k|t]|]; eauto; discriminate.
+Qed.
+
+(* if q is visited, q resolves to the same inode *)
+Lemma onchain_resolves f n p q i :
+  resolve f n p = SOk i -> onchain f n p q = true -> exists m, (m <= n)%nat /\ resolve f m q = SOk i.
+Proof.
+  revert p. induction n as [|n IH]; intros p H Hc; cbn in H, Hc;
+    destruct (String.eqb_spec p q) as [->|Hp]; cbn [orb] in Hc.
+  - exists O. split; [lia | exact H].
+  - destruct (nlook f p) as [[j|t]|]; discriminate.
+  - exists (S n). split; [lia | exact H].
+  - destruct (nlook f p) as [[j|t]|]; try discriminate.
+    destruct (IH t H Hc) as (m & Lm & Hm). exists m. split; [lia | exact Hm].
+Qed.
+
+Lemma resolve_link f n p i : nlook f p = Some (DLink i) -> resolve f n p = SOk i.
+Proof. intro H. destruct n; cbn [resolve]; rewrite H; reflexivity. Qed.
+
+Lemma resolve_none f n p : nlook f p = None -> resolve f n p = SErr ENOENT.
+Proof. intro H. destruct n; cbn [resolve]; rewrite H; reflexivity. Qed.
+
+Lemma onchain_link f n p q i : nlook f p = Some (DLink i) -> p <> q -> onchain f n p q = false.
+Proof. intros H Hp. destruct n; cbn [onchain]; rewrite H, orb_false_r; apply String.eqb_neq; exact Hp. Qed.
+
+Lemma onchain_none f n p q : nlook f p = None -> p <> q -> onchain f n p q = false.
+Proof. intros H Hp. destruct n; cbn [onchain]; rewrite H, orb_false_r; apply String.eqb_neq; exact Hp. Qed.
